@@ -202,8 +202,68 @@ def run_timestamps(tier, v):
                "edit run on a copy with the same timestamps", n, exhaustive=True)
 
 
+def run_id_range_edge(tier, v):
+    """At the top of the ID range: what --check reports, what the edit run inserts and what it prints as its count still agree."""
+    import itertools
+    import shutil
+    from vcommon import scratch_dir
+    U32 = 0xFFFFFFFF
+    work = scratch_dir("c05edge")
+    n = 0
+    for top, missing, lock, structured, split in itertools.product((U32 - 3, U32 - 2, U32 - 1), (1, 2, 3), ("absent", "next", "disabled"), (False, True), (False, True)):
+        def st(i, ref):
+            if structured:
+                return 'fn f%d() { info!(%sk = %d; "m%d"); }\n' % (i, "ref = %d, " % ref if ref else "", i, i)
+            return 'fn f%d() { info!("%sm%d"); }\n' % (i, "[ref: %d] " % ref if ref else "", i)
+        stmts = [st(0, top - 1), st(1, top)] + [st(2 + i, None) for i in range(missing)]
+        files = {"a.rs": "".join(stmts)} if not split else {"a.rs": "".join(stmts[:2]), "b.rs": "".join(stmts[2:])}
+        res = {}
+        for mode in ("check", "edit"):
+            proj = os.path.join(work, "p%d_%s" % (n, mode))
+            tree = {"src/" + k: val for k, val in files.items()}
+            tree["Breadlog.yaml"] = cli.config_yaml("./src", structured=structured, use_cache=(False if lock == "disabled" else None))
+            if lock == "next":
+                tree["Breadlog.lock"] = cli.lock_yaml(top + 1)
+            cli.write_tree(proj, tree)
+            r = cli.run_breadlog(os.path.join(proj, "Breadlog.yaml"), check=(mode == "check"), cwd=work, tmpdir=work, timeout=60)
+            res[mode] = (r, cli.read_tree(os.path.join(proj, "src")))
+            shutil.rmtree(proj, ignore_errors=True)
+        n += 1
+        v.count()
+        rc, _ = res["check"]
+        re_, after = res["edit"]
+        info = {"top_id": top, "missing": missing, "lock": lock, "structured": structured, "two_files": split, "check_exit": rc.exit, "edit_exit": re_.exit}
+        if rc.panicked or re_.panicked or rc.signal is not None or re_.signal is not None:
+            v.violation("cli-crash:id-range-edge", info)
+            continue
+        tokens = 0
+        ok = True
+        for k, orig in files.items():
+            stp = cli.token_strip(orig.encode(), after.get(k, b""))
+            if stp is None:
+                ok = False
+            else:
+                tokens += len(stp)
+        repc, repe = cli.Report(rc.stdout), cli.Report(re_.stdout)
+        info.update(check_total=repc.total, tokens_inserted=tokens, printed_count=repe.inserted)
+        v.distinct(("id-edge", top, missing, lock, structured, split))
+        if not ok:
+            v.violation("not-token-only:id-range-edge", info)
+        elif re_.exit == 0:
+            # the range sufficed: the edit did what the check announced, and says so
+            if repc.total is not None and repc.total != tokens:
+                v.violation("grand-total-differs:id-range-edge", info)
+            if repe.inserted is not None and repe.inserted != tokens:
+                v.violation("edit-run-printed-count-differs-from-tokens-inserted:id-range-edge", info)
+            if rc.exit == 0 and tokens:
+                v.violation("check-exit-does-not-predict-edit:id-range-edge", info)
+    v.subspace("ID-range edge: largest existing ID in {2^32-4, 2^32-3, 2^32-2} x 1..3 unreferenced statements x lock {absent, exact, disabled} x style x {one file, "
+               "two files}: --check total == tokens inserted == count printed by the edit run (when the range suffices)", n, exhaustive=True)
+
+
 def run(tier, v):
     run_walk_faults(tier, v)
+    run_id_range_edge(tier, v)
     run_timestamps(tier, v)
     for name, it in families(tier):
         cases, dropped = difftree.prefilter(list(it))
